@@ -319,7 +319,12 @@ func jobsFor(id, tier string) []*Job {
 						ps = append(ps, []int{l, i, op, narrow, 1, -1}) // family without declared parameters
 					}
 					if i == 0 && op <= 2 && (l == 1 || thorough) {
-						ps = append(ps, []int{l, i, op, narrow, 2, -1}) // family whose first yield gives nil for one argument value
+						// family whose first yield gives nil for one argument value (narrow ranges in quick)
+						nr := narrow
+						if !thorough {
+							nr = 1
+						}
+						ps = append(ps, []int{l, i, op, nr, 2, -1})
 					}
 				}
 			}
@@ -443,7 +448,7 @@ func assumptionsFor(id string) []string {
 	case "C05":
 		return append(common, "every object carries a unique id property, so structural == (used by ancestors/kindOf?) coincides with identity", "forest model (parent, defined kinds, _missing) kept by the harness; expected raw property values are read from the definer's own Pairs map")
 	case "C14":
-		return append(common, "iterator families: <{|n| yield n * 10 + 1 if n < lim; recur(n + d)}>, a body whose first yield gives nil for one argument value z in [-3,5] and is followed by a second yield and a non-nil last statement (<{|n| yield (nil if n == z else n * 10 + 1) if n < lim; recur(n + d); yield 77; n * 10 + 7}>), and the first body written without declared parameters (<{yield \\ * 10 + 1 if \\ < lim; recur(\\ + d)}>), with lim in [-2,5], d in [1,3], start values in [-3,5] — all symbolic within those ranges", "reference = per-iterator state machine in the harness (DESIGN.md 5.14)")
+		return append(common, "iterator families: <{|n| yield n * 10 + 1 if n < lim; recur(n + d)}>, a body whose first yield gives nil for one argument value z in [-3,5] (quick: z in [-1,2] with the narrow ranges) and is followed by a second yield and a non-nil last statement (<{|n| yield (nil if n == z else n * 10 + 1) if n < lim; recur(n + d); yield 77; n * 10 + 7}>), and the first body written without declared parameters (<{yield \\ * 10 + 1 if \\ < lim; recur(\\ + d)}>), with lim in [-2,5], d in [1,3], start values in [-3,5] — all symbolic within those ranges", "reference = per-iterator state machine in the harness (DESIGN.md 5.14)")
 	case "C13":
 		return append(common, "steps are methods of a receiver object, literal calls, and operator calls written in chain form (.+(n)); step names are ones the Either wrapper does not define itself (DESIGN.md Appendix B, C13 domain note) — names the wrapper's own prototype chain answers (A, val, ==, S, p, keys ...) never reach the _missing proxy and are outside the domain", "failures are injected inside the callee (step(i) raises iff i == K); a raise during argument evaluation happens before the call and is not a failure of the step")
 	case "C18":
